@@ -93,9 +93,9 @@ def impl_oracle(c):
 def run(tier, seed, replay=None):
     return interpcheck.run_interp_check(
         "C06", "c06", ("result",), {"quick": 100000, "thorough": 100000}, tier, seed,
-        rule="complete product of ordered pairs over a pool of 64 values (nil, booleans, ints around 10^5..10^7, 2^53, 2^53+1, "
+        rule="complete product of ordered pairs over a pool of 74 values (nil, booleans, ints around 10^5..10^7, 2^53, 2^53+1, "
              "2^63-1, floats with and without exponent, -0.0, NaN, Inf, numeric and non-numeric strings incl. \"1e6\", \"0x10\", "
-             "\" 1\", \"+1\", nested slices and maps) = 4096 pairs, each evaluated in all syntactic uses and both orders: "
+             "\" 1\", \"+1\", nested slices and maps) (also zero-padded and prefixed spellings \"010\", \"0b11\", \"0o17\" beside 8, 10, 3, 15, 16), each pair evaluated in all syntactic uses and both orders: "
              "a==b, b==a, a!=b, a in [b], switch a {case b}, a<=b && a>=b, b in [a], switch b {case a}; then 16x16 pairs of containers "
              "that share storage (views of one list at several offsets and lengths, the same list nested, a shared map) beside fresh "
              "containers with the same contents, judged structurally; compared with the Coq "
